@@ -291,3 +291,77 @@ def error_mapping(run, ctx):
             run.violation(fam, "parse-end", "shape", H.where(fn), "the parser must reject trailing unparsed input with its position")
         else:
             run.ok(fam, "parse-end", H.where(fn), 1, "trailing input rejected with position ix < len")
+
+
+def hex_digits_rule(run, ctx):
+    """`u32::from_str_radix(s, 16).unwrap()` in parse_hex: s is 1..=8 hex digits on both paths."""
+    fam, label = "STEP", "hex-digits"
+    fn = S.get_fn(run, ctx, "parse::Parser::parse_hex", fam, label)
+    if fn is None:
+        return
+    w = H.where(fn)
+    n = 0
+    incs = 0
+    for p in S.paths_of(fn["body"], max_paths=100000):
+        if not feasible(p):
+            continue
+        for i, ev in enumerate(p.events):
+            if ev.kind == "assign" and ev.b == "+=" and ev.c == "1" and ev.node is not None:
+                V = ev.a
+                # is this the digit counter of the braces form?  (let V = START before the loop)
+                starts = [e2 for e2 in p.events[:i] if e2.kind == "let" and e2.a == V]
+                if not starts:
+                    continue
+                START = starts[0].b
+                incs += 1
+                n += 1
+                pre = p.events[:i]
+                hexok = any(e2.kind == "cond" and e2.b and H.pat_match("is_hex_digit({b})", e2.a) for e2 in pre)
+                pf = S.PathFacts(p.events, i)
+                bounded = pf.proves("Lt", V, ({START: 1}, 8)) or pf.proves("Le", V, ({START: 1}, 7))
+                if not hexok:
+                    run.violation(fam, label, "non-hex", w, "parse_hex counts a byte as a digit of \\x{...} without is_hex_digit having accepted it: from_str_radix(..).unwrap() would panic")
+                if not bounded:
+                    run.violation(fam, label, "too-many-digits", w, "parse_hex accepts a hex digit in \\x{...} without `%s < %s + 8` being established: nine digits overflow u32 and from_str_radix(..).unwrap() panics" % (V, START))
+    c = H.canon(fn["body"])
+    D = fn["params"][2].get("name") if len(fn["params"]) > 2 else "digits"
+    n += 1
+    sums = ["(%s + {ix})" % D, "({ix} + %s)" % D]
+    fw = any(H.find_pat(c, "if ((%s <= len(self.re)) && {b}[{ix}..%s].iter().all(|{x}| is_hex_digit({x})))" % (s1, s2)) for s1 in sums for s2 in sums)
+    if not fw:
+        run.violation(fam, label, "fixed-width", w, "the fixed-width form must test that `digits` bytes remain and that all of them are hex digits")
+    # the fixed widths passed by the callers are <= 8
+    pe = S.get_fn(run, ctx, "parse::Parser::parse_escape", fam, label)
+    if pe is not None:
+        widths = [H.canon(nd["args"][1]) for nd in H.walk(pe["body"]) if nd.get("k") == "MethodCall" and nd["name"] == "parse_hex"]
+        n += len(widths)
+        if not widths or any((not x.isdigit()) or int(x) > 8 or int(x) < 1 for x in widths):
+            run.violation(fam, label, "widths", H.where(pe), "parse_hex is called with digit widths %s; each must be a constant in 1..=8" % widths)
+    run.floor(fam, label, w, incs, 1, "digit-counting steps of the braces form")
+    run.ok(fam, label, w, n, "braces form: each counted byte is a hex digit and fewer than 8 were counted before; fixed widths 2/4/8 with an all-hex test")
+
+
+def inner_limits(run, ctx):
+    """compile_inner leaves the inner engine's default size limits in force unless the user set one."""
+    fam, label = "ERRMAP", "inner-limits"
+    ci = S.get_fn(run, ctx, "compile::compile_inner", fam, label)
+    if ci is None:
+        return
+    n = 0
+    for fld, meth in (("delegate_size_limit", "nfa_size_limit"), ("delegate_dfa_size_limit", "dfa_size_limit")):
+        calls = [nd for nd in H.walk(ci["body"]) if nd.get("k") == "MethodCall" and nd["name"] == meth]
+        n += 1
+        ok = len(calls) == 1
+        if ok:
+            arg = H.canon(calls[0]["args"][0])
+            # must be Some(<value bound from the option>) under `if let Some(v) = options.<fld>`
+            m = H.pat_match("Some({v})", arg)
+            guarded = False
+            if m:
+                for nd in H.walk(ci["body"]):
+                    if nd.get("k") == "If" and H.pat_match("let Some(%s) = {o}.%s" % (m.group("v"), fld), H.canon(nd["cond"])) and any(x is calls[0] for x in H.walk(nd["then"])):
+                        guarded = True
+            ok = bool(m) and guarded
+        if not ok:
+            run.violation(fam, label, fld, H.where(ci), "compile_inner must call %s only with Some(limit) when the user set %s: passing None removes regex-automata's default size limit, so a pattern like \\w{600} builds an unbounded automaton instead of failing" % (meth, fld))
+    run.ok(fam, label, H.where(ci), n, "size limits: default limits of the inner engine stay in force unless the user sets one")
